@@ -15,6 +15,12 @@ For every method (or StaticURLInfo method) that calls `<self|config>.introspecta
   defs     every assignment (plain, tuple, augmented, `for` target, nested-function default) to a local name that
            is mentioned — transitively — by one of the expressions above: the *definition slice* that says what a
            recorded expression means in terms of the directive's parameters
+  cls, decorated, entries
+           the class the body sits on, whether it carries `@action_method`, and the public configurator
+           directives through which it is reached (itself when it is a public mixin method, else its callers
+           `self.NAME(...)` / `info.NAME(self, ...)`, followed upwards through non-public methods), each with its
+           own `@action_method` flag: the outermost `action_method` wrapper is the one that records the calling
+           statement as `action_info`, so every entry must carry it
   unknown  every use of an introspectable variable that is none of the above (reads `var[k]`, comparisons
            `var is None` and truth tests are allowed), every non-constant key, every shape not understood.
            A non-empty list makes the theorems of Props/C20.lean fail — never guess.
@@ -79,9 +85,12 @@ def names_in(node):
 class Slice:
     """one directive"""
 
-    def __init__(self, fname, func):
+    def __init__(self, fname, func, cls=''):
         self.file, self.func = fname, func
         self.name = func.name
+        self.cls = cls
+        self.decorated = any(U(d) == 'action_method' for d in func.decorator_list)
+        self.entries = []        # filled by find_directives
         a = func.args
         ps = [x.arg for x in a.posonlyargs + a.args]
         if a.vararg:
@@ -400,7 +409,9 @@ class Slice:
         def G(gs):
             return lean_strs(gs)
         L = []
-        L.append('  { file := %s, name := %s,' % (lean_str(self.file), lean_str(self.name)))
+        L.append('  { file := %s, name := %s, cls := %s, decorated := %s,' % (
+            lean_str(self.file), lean_str(self.name), lean_str(self.cls), 'true' if self.decorated else 'false'))
+        L.append('    entries := %s,' % lean_list(['(%s, %s)' % (lean_str(n), 'true' if d else 'false') for n, d in self.entries]))
         L.append('    params := %s,' % lean_strs(self.params))
         L.append('    intros := %s,' % lean_list(
             ['\n      ⟨%s, %s, %s, %s, %s, %s, %s, %s⟩' % (lean_str(v), lean_str(c), lean_str(d), lean_str(t), lean_str(ty), lean_str(sc), G(g), G(dp))
@@ -425,20 +436,73 @@ class Slice:
         return '\n'.join(L)
 
 
+def _is_mixin(cls):
+    return cls.endswith('ConfiguratorMixin') or cls == 'Configurator'
+
+
+def _direct_callers(methods, target_cls, target_name):
+    """methods of config/*.py that call the target: `self.NAME(...)` when the target sits on a configurator mixin,
+    `info.NAME(self, ...)` (info = the StaticURLInfo utility) when it sits on another class"""
+    out = []
+    for (fn, cls, name), f in methods.items():
+        if (cls, name) == (target_cls, target_name):
+            continue
+        for n in ast.walk(f):
+            if isinstance(n, ast.Call) and isinstance(n.func, ast.Attribute) and n.func.attr == target_name \
+                    and isinstance(n.func.value, ast.Name):
+                recv = n.func.value.id
+                if _is_mixin(target_cls):
+                    ok = recv == 'self' and _is_mixin(cls)
+                else:
+                    ok = recv == 'info' and n.args and isinstance(n.args[0], ast.Name) and n.args[0].id == 'self' and _is_mixin(cls)
+                if ok:
+                    out.append((fn, cls, name))
+                    break
+    return out
+
+
+def _entries(methods, cls, name, depth=0):
+    """the public directives through which a body that builds introspectables is reached: the body itself when it is a
+    public method of a configurator mixin; otherwise its callers, followed upwards through non-public methods.
+    -> [('Class.method', decorated with @action_method)]; [] when none is found (the obligation then fails)"""
+    if _is_mixin(cls) and not name.startswith('_'):
+        f = next(f for (fn, c, n), f in methods.items() if (c, n) == (cls, name))
+        return [('%s.%s' % (cls, name), any(U(d) == 'action_method' for d in f.decorator_list))]
+    if depth > 3:
+        return []
+    out = []
+    for (fn, c, n) in _direct_callers(methods, cls, name):
+        for e in _entries(methods, c, n, depth + 1):
+            if e not in out:
+                out.append(e)
+    return sorted(out)
+
+
 def find_directives(src_root):
     cfg = os.path.join(src_root, 'pyramid', 'config')
     out = []
+    methods = {}
+    trees = []
     for fn in sorted(os.listdir(cfg)):
         if not fn.endswith('.py'):
             continue
         src = open(os.path.join(cfg, fn)).read()
         tree = ast.parse(src)
+        trees.append((fn, tree))
+        for cls in tree.body:
+            if isinstance(cls, ast.ClassDef):
+                for f in cls.body:
+                    if isinstance(f, ast.FunctionDef):
+                        methods[(fn, cls.name, f.name)] = f
+    for fn, tree in trees:
         for cls in tree.body:
             if not isinstance(cls, ast.ClassDef):
                 continue
             for f in cls.body:
                 if isinstance(f, ast.FunctionDef) and any(is_intr_call(n) for n in ast.walk(f)):
-                    out.append(Slice(fn, f))
+                    sl = Slice(fn, f, cls.name)
+                    sl.entries = _entries(methods, cls.name, f.name)
+                    out.append(sl)
         # an introspectable built outside a class method is not a shape we follow
         for f in tree.body:
             if isinstance(f, ast.FunctionDef) and any(is_intr_call(n) for n in ast.walk(f)):
